@@ -93,8 +93,17 @@ def run(out: Outcome, drv):
         faulty = copy.deepcopy(ctxs)
         kinds = rng.sample(FAULTS, rng.randint(1, 3))
         placed = []
+        todo = []
         for kind in kinds:
-            fe_ = fault_entry(rng, kind, tab, used)
+            todo.append((kind, fault_entry(rng, kind, tab, used)))
+            if kind == "absent_stream" and rng.random() < 0.6:
+                # several tests under the stream id that is absent from the data
+                for nm, kw_ in rng.sample([("spike_test", {"suspect_threshold": 1, "fail_threshold": 2}),
+                                           ("rate_of_change_test", {"threshold": 0.5}),
+                                           ("flat_line_test", {"suspect_threshold": 120, "fail_threshold": 240, "tolerance": 1})],
+                                          rng.randint(1, 2)):
+                    todo.append((kind, ("ghost_stream", "qartod", nm, kw_)))
+        for kind, fe_ in todo:
             if fe_ is None:
                 continue
             sid, m, name, kw = fe_
